@@ -41,13 +41,19 @@ class C42(Prop):
              "period (first, restarted after a change of groups, retried after a failure) is given the current groups and "
              "that query, never the query of an earlier period; the rule that decides what Start stores is a parameter, "
              "the code's rule is the model's, 'an empty query does not overwrite' and 'the first query is kept' are "
-             "refuted with witnesses. The forward theorem is proved for any test ReloadConf "
+             "refuted with witnesses. The configuration (Model/C42_SrcConf.v, configurations named by the number of the reload "
+             "that handed them in): after every history of start / stop / failure / retry / reload - reloads while the "
+             "instance runs, while the source is stopped, during retryPause - Handler.Conf is the configuration of the "
+             "latest reload, a running instance has it (created with it or notified of it) and every instance created "
+             "by a start or a retry is given it; the early return of ReloadConf on a stopped handler (pinned code, "
+             "fixed by /repo b9e674a) and a chReloadConf case skipped during retryPause are refuted. The forward theorem is proved for any test ReloadConf "
              "might use to keep a handler provided the test is sound (kept => same configuration and same resolved value); "
              "the code's test is sound, a test over the indices of the old groups only is refuted. Tied to the code by "
              "histories on a real forward.Manager (resolved value from the handler's fields or from the running "
              "forwarder's own log line, next to a fresh resolveDest oracle), on a real staticsources.Handler whose "
              "instance is a recorder (the ResolvedSource of every instance created, over histories of Start(query) / Stop / "
-             "ReloadMatches / failure / retry) and on a real pathManager + path with real "
+             "ReloadMatches + ReloadConf / failure / retry; the configuration each instance was created with and every "
+             "configuration it is notified of) and on a real pathManager + path with real "
              "conf.Load / FindPathConf (what forwarders and source instances send to a TCP listener, the real "
              "ExternalCmdEnv()).",
         note="Trusted: Coq kernel+VM, the in-package drivers. strings.ReplaceAll is modelled (leftmost, non-overlapping) "
@@ -82,7 +88,10 @@ class C42(Prop):
             "while running and while stopped, failures with and without the retry; the count of every kind of "
             "consecutive starts is in the driver summary (source_handler_consecutive_starts). Non-trivial = a reload "
             "that changes the groups while a destination / the source template stays, or consecutive starts with "
-            "different queries on a template with $MTX_QUERY")
+            "different queries on a template with $MTX_QUERY. Every Handler history is also emitted as a SrcConf case "
+            "(classes life:source-conf:reloads-while-running/stopped/retry-pause): each reload hands in a fresh "
+            "configuration (one third of them without new groups), observed = the configuration of the running "
+            "instance after every step")
     trusted_base = ["Coq 8.16.1 kernel + VM (vm_compute for cases)", "in-package Go drivers zz_verif_c42_test.go "
                     "(internal/staticsources, internal/forward, internal/core) and zz_verif_c42life_test.go (internal/forward, "
                     "internal/staticsources: recording instance in place of Handler.instance)",
@@ -90,6 +99,9 @@ class C42(Prop):
                     "oracle: conf.FindPathConf / regexp engine for the groups of a name under a configuration key",
                     "model Model/C42_Life.v hand-written (forward.Manager, staticsources.Handler, ExternalCmdEnv, "
                     "path.doReloadConf), tied by correspondence",
+                    "model Model/C42_SrcConf.v hand-written (Handler.Conf / StaticSourceRunParams.Conf / ReloadConf), tied by "
+                    "correspondence; two ReloadConf calls whose deliveries overtake each other (each is delivered by its own "
+                    "goroutine) are not driven: the driver waits for each delivery",
                     "model Model/C42_Template.v hand-written (strings.ReplaceAll, strconv.FormatInt modelled), tied by correspondence"]
     assumptions = ["path names and capture groups hold no '$' (conf.IsValidPathName: [0-9a-zA-Z_-/.])",
                    "sources know $G<n> and $MTX_QUERY, destinations $G<n> and $MTX_PATH (as documented in mediamtx.yml)",
